@@ -129,4 +129,28 @@ def _stdio_out(rep):
     return bool(res["rejected"]) or any(c != "x" for c in res["failed"].get(0, []))
 
 
-REPLAYERS = {"stdio_out": _stdio_out, "framing": _framing, "gate_script": _gate_script, "version_runs": _version_runs, "handshake": _handshake, "handshake_server": _handshake_server, "dispatch_case": _dispatch_case, "session_ops": _session_ops, "errorclass_case": _errorclass_case, "errorclass_sets": _errorclass_sets}
+def _lifecycle(rep):
+    from harness.props import lifecycle
+    t = lifecycle.to_trace(rep["scenario"], lifecycle._run(rep["scenario"]))
+    print(json.dumps(t))
+    res = validate.validate("StdioLifecycleTrace", [t], {"ExitAbortedByCancellation": False, "Slack": lifecycle.SLACK}, work=os.path.join(tlc.WORK, "replay_lc"), jobs=1)
+    print("failed:", res["failed"])
+    return rep["clause"] in res["failed"].get(0, [])
+
+
+def _host_case(rep):
+    from harness.props import host
+    from harness.drivers import host_drv
+    work = os.path.join(tlc.WORK, "replay_host")
+    os.makedirs(work, exist_ok=True)
+    r = host_drv.run_case((work, 0, rep["case"]))
+    print(json.dumps(r))
+    r["obs"] = {k: v for k, v in r["obs"].items() if k != "detail"}
+    consts = dict(host.TREE)
+    consts["NServers"] = 4
+    res = validate.validate("HostLaunchTrace", [r], consts, work=work, jobs=1)
+    print("failed:", res["failed"])
+    return rep["clause"] in res["failed"].get(0, [])
+
+
+REPLAYERS = {"host_case": _host_case, "lifecycle": _lifecycle, "stdio_out": _stdio_out, "framing": _framing, "gate_script": _gate_script, "version_runs": _version_runs, "handshake": _handshake, "handshake_server": _handshake_server, "dispatch_case": _dispatch_case, "session_ops": _session_ops, "errorclass_case": _errorclass_case, "errorclass_sets": _errorclass_sets}
